@@ -89,11 +89,15 @@ func gateFrame(vx *vaxis.Vaxis, m *screenmodel.Model) {
 	}
 }
 
+// absentReply: DECRPM status the swept terminal gives for optional modes it does not implement
+var absentReply int
+
 func sweepProfile(i int, initCol int, opts vaxis.Options) {
 	caps := refterm.Cap(i & (1<<refterm.NumGatingCaps - 1))
 	ver := refterm.Version(i >> refterm.NumGatingCaps & 3)
 	prof := refterm.DefaultProfile(caps, ver)
 	prof.InitCol = initCol
+	prof.AbsentModeReply = absentReply
 	// reporting capabilities: a rotating subset so that the accessor clause is exercised
 	rep := []refterm.Cap{refterm.CapOSC4, refterm.CapOSC10, refterm.CapOSC11, refterm.CapKittyGraphics, refterm.CapDECRQSS, refterm.CapSizeReports}
 	for k, c := range rep {
@@ -353,6 +357,12 @@ func main() {
 				}
 				if i%8 == 0 || r.Thorough() {
 					sweepProfile(i, 0, vaxis.Options{DisableKittyKeyboard: true})
+				}
+				// a terminal that answers DECRQM for the optional modes it lacks with 4 (permanently reset)
+				if i%4 == 1 || r.Thorough() {
+					absentReply = 4
+					sweepProfile(i, i%3, vaxis.Options{})
+					absentReply = 0
 				}
 				r.Distinct(explore.Hash("prof", fmt.Sprint(i)))
 				if i%3001 == idx {
